@@ -285,7 +285,7 @@ def cases(draw, rich=False):
     m = len(ii)
     base = draw(st.lists(st.integers(-3, 3), min_size=m, max_size=m))
     # planted effects on a subset of edges, either sign; some constant edges
-    role = draw(st.lists(st.sampled_from(["null", "null", "zero", "up", "up", "down", "const", "null"]), min_size=m, max_size=m))
+    role = draw(st.lists(st.sampled_from(["null", "null", "zero", "up", "up", "down", "const", "null", "const-diff"]), min_size=m, max_size=m))
 
     def stack(k, shift_sign):
         noise = draw(st.lists(st.integers(-2, 2), min_size=m * k, max_size=m * k))
@@ -298,6 +298,10 @@ def cases(draw, rich=False):
                     val = 0.0           # a connection absent in every subject of both groups (sparse networks)
                 elif role[e] == "const":
                     val = base[e] / 2.0
+                elif role[e] == "const-diff":
+                    # the same value in every subject of a group, another value in the other group (zero variance in both,
+                    # e.g. a connection present in all patients and in no control)
+                    val = base[e] / 2.0 + 2.0 * shift_sign
                 else:
                     val = (base[e] + v) / 2.0
                     if role[e] == "up":
